@@ -22,7 +22,7 @@ RULE = ("case = generated declaration (weighted to 10-60 variants, permuted orde
 ASSUMPTIONS = ["hash seeds are sampled, not controlled: an order dependence that needs a specific collision pattern "
                "is detected with probability < 1"]
 
-PROFILE = S.profile(renames=0.4, dups=0.3, attrs=0.2, sizes=[("small", 45), ("medium", 50), ("large", 5)],
+PROFILE = S.profile(renames=0.4, dups=0.3, attrs=0.45, sizes=[("small", 45), ("medium", 50), ("large", 5)],
                     orders=["perm", "identity", "perm", "identity", "reverse"])
 
 
